@@ -752,6 +752,83 @@ Section Exact.
   Qed.
 End Exact.
 
+(* ---- what the driver remembers does not matter where the prompt is unambiguous: histories in which
+   the USER's lines moved the device (send_configs([.., "end"]), Junos "commit and-quit",
+   send_command("configure terminal")) leave a stale _current_priv_level behind ---- *)
+Section Belief.
+  Variable N factor : nat.
+  Variable stop : bool.
+  Variable parent : nat -> option nat.
+  Variable auth : nat -> bool.
+  Variable nbrs : nat -> list nat.
+  Variable matches : nat -> list nat.
+  Variable D : Type.
+  Variable dmode : D -> nat.
+  Variable dline : D -> line -> D * reply.
+
+  Lemma pick_singleton : forall belief dst m, pick belief dst [m] = Some m.
+  Proof.
+    intros [b|] dst m; unfold pick, memn; simpl.
+    - destruct (b =? m) eqn:E; simpl.
+      + apply Nat.eqb_eq in E. subst. reflexivity.
+      + destruct (dst =? m) eqn:E2; simpl; [apply Nat.eqb_eq in E2; subst|]; reflexivity.
+    - destruct (dst =? m) eqn:E2; simpl; [apply Nat.eqb_eq in E2; subst|]; reflexivity.
+  Qed.
+
+  Lemma process_singleton : forall belief dst m,
+    process N parent nbrs belief dst [m] = process N parent nbrs (Some m) dst [m].
+  Proof. intros. unfold process. rewrite !pick_singleton. reflexivity. Qed.
+
+  (* the remembered level is consulted only to choose among SEVERAL levels matching the prompt: when the
+     prompt the device prints is matched by one level only, acquire_priv does the same whatever it
+     remembers (a stale memory after the user's own lines moved the device, DUMMY, anything) *)
+  Theorem acquire_stale_belief : forall belief dst d d1, dst < N ->
+    dline d LRet = (d1, RPrompt) -> matches (dmode d1) = [dmode d1] ->
+    acquire N factor stop parent auth nbrs matches D dmode dline belief dst d =
+    acquire N factor stop parent auth nbrs matches D dmode dline (Some (dmode d1)) dst d.
+  Proof.
+    intros belief dst d d1 HN Hr Hm. unfold acquire. apply Nat.ltb_lt in HN. rewrite HN.
+    replace (factor * N + 2) with (S (factor * N + 1)) by lia.
+    simpl. rewrite Hr. rewrite Hm. rewrite (process_singleton belief). reflexivity.
+  Qed.
+End Belief.
+
+(* nav_reaches from a level the driver does NOT remember correctly: same hypotheses, plus the prompt of
+   the level the device is in is matched by that level only *)
+Theorem nav_reaches_stale_belief :
+  forall (N factor : nat) (stop : bool) (parent : nat -> option nat) (auth : nat -> bool)
+         (nbrs matches : nat -> list nat) (D : Type) (dmode : D -> nat) (dline : D -> line -> D * reply)
+         (depth : nat -> nat) (root : nat),
+    (forall n p : nat, parent n = Some p -> depth n = S (depth p)) ->
+    (forall a b : nat, In b (nbrs a) <-> parent a = Some b \/ parent b = Some a) ->
+    (forall x : nat, valid parent depth root x -> depth x < N) ->
+    1 <= factor ->
+    (forall x : nat, valid parent depth root x -> x < N) ->
+    (forall m : nat, valid parent depth root m -> In m (matches m)) ->
+    (forall m c : nat, parent c = Some m -> matches m = [m]) ->
+    forall Inv : D -> Prop,
+    (forall d : D, Inv d -> exists d' : D, dline d LRet = (d', RPrompt) /\ dmode d' = dmode d /\ Inv d') ->
+    (forall (d : D) (p : nat), Inv d -> parent (dmode d) = Some p ->
+       exists d' : D, deescalate D dline (dmode d) d = (d', None) /\ dmode d' = p /\ Inv d') ->
+    (forall (d : D) (x : nat), Inv d -> parent x = Some (dmode d) ->
+       exists d' : D, escalate stop parent auth matches D dmode dline x d = (d', None) /\ dmode d' = x /\ Inv d') ->
+    forall (belief : option nat) (src dst : nat) (d : D),
+      valid parent depth root src -> valid parent depth root dst -> dst < N -> Inv d -> dmode d = src ->
+      matches src = [src] ->
+      exists d' : D,
+        acquire N factor stop parent auth nbrs matches D dmode dline belief dst d =
+          (Reached, Some dst, d', route parent depth (2 * N) src dst) /\
+        dmode d' = dst /\ length (route parent depth (2 * N) src dst) + 1 <= N.
+Proof.
+  intros N factor stop parent auth nbrs matches D dmode dline depth root H1 H2 H3 H4 H5 H6 H7 Inv Hret Hde Hesc
+         belief src dst d Hs Hd HdN HI Hm Hex.
+  destruct (Hret d HI) as (d1 & Er & Em & _).
+  rewrite (acquire_stale_belief N factor stop parent auth nbrs matches D dmode dline belief dst d d1 HdN Er).
+  - rewrite Em, Hm.
+    apply (nav_reaches N factor stop parent auth nbrs matches D dmode dline depth root H1 H2 H3 H4 H5 H6 H7 Inv Hret Hde Hesc); auto.
+  - rewrite Em, Hm. exact Hex.
+Qed.
+
 (* ------------------------------------------------------------------------------------------ *)
 (* the premises of nav_reaches are satisfiable: the IOS-XE shaped tree exec - privilege_exec -
    {configuration, tclsh}, an authenticated escalation to level 1, a device that just moves *)
@@ -819,6 +896,25 @@ Module Example_Tree.
     exists d', acquire 4 2 false parent auth nbrs matches nat dmode dline (Some 3) 2 3
                = (Reached, Some 2, d', [LDeesc 3; LEsc 2]) /\ dmode d' = 2.
   Proof. apply (nav_reaches_premises_satisfiable false 3 2); lia. Qed.
+
+  (* the premises of nav_reaches_stale_belief are satisfiable, for every remembered level *)
+  Example stale_belief_premises_satisfiable : forall stop belief src dst, src < 4 -> dst < 4 ->
+    exists d', acquire 4 2 stop parent auth nbrs matches nat dmode dline belief dst src
+               = (Reached, Some dst, d', route parent depth 8 src dst) /\ dmode d' = dst.
+  Proof.
+    intros stop belief src dst Hs Hd.
+    rewrite (acquire_stale_belief 4 2 stop parent auth nbrs matches nat dmode dline belief dst src src Hd).
+    - apply nav_reaches_premises_satisfiable; auto.
+    - reflexivity.
+    - unfold matches, dmode. apply Nat.ltb_lt in Hs. rewrite Hs. reflexivity.
+  Qed.
+
+  (* send_configs([.., "end"]) left the device in privilege_exec (1) while the driver remembers
+     configuration (2): acquire_priv(configuration) types the escalate command again *)
+  Example configuration_again_after_user_end :
+    exists d', acquire 4 2 false parent auth nbrs matches nat dmode dline (Some 2) 2 1
+               = (Reached, Some 2, d', [LEsc 2]) /\ dmode d' = 2.
+  Proof. apply (stale_belief_premises_satisfiable false (Some 2) 1 2); lia. Qed.
 End Example_Tree.
 
 (* ------------------------------------------------------------------------------------------ *)
